@@ -3,7 +3,7 @@
 # every one of the 119 baseline tests reports "passed".  (The suite's last test,
 # spif_module_load, fails in this sandbox before and after any change; it is not
 # among the baseline tests, so make's own exit status is not used.)
-REPO=${VERIF_REPO:-/repo}
+REPO=${1:-${VERIF_REPO:-/repo}}
 make -s -C "$REPO" >/dev/null 2>&1 || { echo "build failed"; exit 1; }
 out=$(cd "$REPO/test" && make -s test 2>&1)
 python3 - "$out" <<'PY'
